@@ -10,18 +10,26 @@ use open_hypergraphs::category::{Arrow, Monoidal};
 use open_hypergraphs::lax;
 use serde_json::json;
 
+/// a label type larger than 64 bytes
+#[derive(Clone, Debug, PartialEq, Eq, Hash, PartialOrd, Ord)]
+pub struct Big {
+    pub name: String,
+    pub shape: Vec<usize>,
+    pub attrs: Vec<(String, i64)>,
+}
+
 pub struct C02;
 
 /// nodes, hyperedges and interfaces equal field for field; pending unification pairs equal as a
 /// multiset of (offset) unordered pairs -- neither the list order nor the orientation of a pair carries meaning
-fn same_lax_up_to_pair_order(a: &PL, b: &PL) -> bool {
+fn same_lax_up_to_pair_order<O: Lbl, A: Lbl>(a: &PLax<O, A>, b: &PLax<O, A>) -> bool {
     let norm = |q: &Vec<(usize, usize)>| { let mut v: Vec<(usize, usize)> = q.iter().map(|&(x, y)| (x.min(y), x.max(y))).collect(); v.sort(); v };
     let (qa, qb) = (norm(&a.q), norm(&b.q));
     a.w == b.w && a.e == b.e && a.s == b.s && a.t == b.t && qa == qb
 }
 
 impl C02 {
-    fn strict(&self, ctx: &mut Ctx, class: &str, f: &P, g: &P, h: &P) {
+    fn strict<O: Lbl, A: Lbl>(&self, ctx: &mut Ctx, class: &str, f: &POh<O, A>, g: &POh<O, A>, h: &POh<O, A>) {
         let input = || json!({"f": show(f), "g": show(g), "h": show(h)});
         let (lf, lg, lh) = (to_strict(f), to_strict(g), to_strict(h));
         if (!f.w.is_empty() && !g.w.is_empty()) || class != "random" {
@@ -55,7 +63,7 @@ impl C02 {
             }
         }
         // two-sided unit on the nose
-        let unit = lib(ctx, "identity(unit)", class, &input, || SOh::<u32, u64>::identity(<SOh<u32, u64> as Monoidal>::unit()));
+        let unit = lib(ctx, "identity(unit)", class, &input, || SOh::<O, A>::identity(<SOh<O, A> as Monoidal>::unit()));
         if let Some(u) = unit {
             let l = lib(ctx, "tensor", class, &input, || lf.tensor(&u));
             let r = lib(ctx, "tensor", class, &input, || u.tensor(&lf));
@@ -70,7 +78,7 @@ impl C02 {
         ctx.sample(class, || json!({"kind": "strict", "f": show(f), "g": show(g), "h": show(h)}));
     }
 
-    fn lax(&self, ctx: &mut Ctx, class: &str, f: &PL, g: &PL, h: &PL) {
+    fn lax<O: Lbl, A: Lbl>(&self, ctx: &mut Ctx, class: &str, f: &PLax<O, A>, g: &PLax<O, A>, h: &PLax<O, A>) {
         let input = || json!({"f": show_lax(f), "g": show_lax(g), "h": show_lax(h)});
         let (lf, lg, lh) = (to_lax(f), to_lax(g), to_lax(h));
         if !g.q.is_empty() {
@@ -131,8 +139,8 @@ impl C02 {
             }
         }
         // the unit: the identity on the unit object is the empty diagram
-        let u = lax::OpenHypergraph::<u32, u64>::empty();
-        if let Some(iu) = lib(ctx, "lax::identity(unit)", class, &input, || <LOh<u32, u64> as Arrow>::identity(<LOh<u32, u64> as Monoidal>::unit())) {
+        let u = lax::OpenHypergraph::<O, A>::empty();
+        if let Some(iu) = lib(ctx, "lax::identity(unit)", class, &input, || <LOh<O, A> as Arrow>::identity(<LOh<O, A> as Monoidal>::unit())) {
             ctx.check(from_lax_raw(&iu) == PLax::empty() && wf_lax(&iu).is_empty() && from_lax_raw(&u) == PLax::empty(), &format!("lax::identity(unit)/is-the-empty-diagram/value/{}", class), || {
                 json!({"observed": show_lax(&from_lax_raw(&iu))})
             });
@@ -157,7 +165,7 @@ impl Monitor for C02 {
          lax diagrams (with pending unification pairs), all size combinations including empty node sets, edge sets and interfaces. Oracle: model juxtaposition computed by loops, \
          compared field for field (node labels, every incidence list, both interfaces, pending pairs offset by the left node count, compared as a multiset since their list order carries no meaning; also through the in-place tensor_assign; segment codomains via the deep walker); result \
          type = concatenation read through source()/target(); (f|g)|h == f|(g|h) and f|empty == f == empty|f as raw data. non-trivial = both operands non-empty or a fixed shape; \
-         distinct = hash of the triple. Also: lax results are walked (lengths of all public vectors, ranges), the three-fold lax tensor is compared with the model, and the identity on the unit object must be the empty diagram."
+         distinct = hash of the triple. A quarter of the random strict triples are repeated (strict and lax) over heap-allocated labels, labels of 72 bytes and zero-sized labels. Also: lax results are walked (lengths of all public vectors, ranges), the three-fold lax tensor is compared with the model, and the identity on the unit object must be the empty diagram."
     }
     fn corpus_len(&self) -> u64 {
         6
@@ -176,6 +184,9 @@ impl Monitor for C02 {
             ("api:lax::bitor", 100),
             ("api:lax::tensor_assign", 200),
             ("class:operand_with_several_hundred_wires", 100),
+            ("class:labels_on_the_heap", 200),
+            ("class:labels_larger_than_64_bytes", 200),
+            ("class:labels_of_size_zero", 200),
             ("class:operand_with_more_than_a_thousand_wires", 50),
             ("law:unit", 200),
             ("law:lax_unit", 200),
@@ -233,6 +244,31 @@ impl Monitor for C02 {
                 if r.chance(1, 2) {
                     let (f, g, h) = (gen::oh(r, &params), gen::oh(r, &params), gen::oh(r, &params));
                     self.strict(ctx, "random", &f, &g, &h);
+                    match r.below(12) {
+                        0 => {
+                            // heap-allocated labels (String nodes, Vec<u8> hyperedges)
+                            ctx.class("labels_on_the_heap");
+                            let m = |p: &P| p.map_labels(|o| format!("node-label-{}", o), |a| format!("op{}", a).into_bytes());
+                            self.strict(ctx, "heap_labels", &m(&f), &m(&g), &m(&h));
+                            self.lax(ctx, "heap_labels", &m(&f).to_lax(), &m(&g).to_lax(), &m(&h).to_lax());
+                        }
+                        1 => {
+                            // labels larger than a cache line (a struct of three heap fields, 72 bytes)
+                            ctx.class("labels_larger_than_64_bytes");
+                            let big = |x: u64| Big { name: format!("n{}", x), shape: vec![x as usize; (x % 3) as usize], attrs: vec![(format!("k{}", x), x as i64)] };
+                            let m = |p: &P| p.map_labels(|o| big(*o as u64), |a| big(*a + 100));
+                            self.strict(ctx, "big_labels", &m(&f), &m(&g), &m(&h));
+                            self.lax(ctx, "big_labels", &m(&f).to_lax(), &m(&g).to_lax(), &m(&h).to_lax());
+                        }
+                        2 => {
+                            // zero-sized labels
+                            ctx.class("labels_of_size_zero");
+                            let m = |p: &P| p.map_labels(|_| (), |_| ());
+                            self.strict(ctx, "unit_labels", &m(&f), &m(&g), &m(&h));
+                            self.lax(ctx, "unit_labels", &m(&f).to_lax(), &m(&g).to_lax(), &m(&h).to_lax());
+                        }
+                        _ => {}
+                    }
                 } else {
                     let (f, g, h) = (gen::lax(r, &params, 3, false), gen::lax(r, &params, 3, false), gen::lax(r, &params, 3, false));
                     self.lax(ctx, "random", &f, &g, &h);
